@@ -4,6 +4,7 @@ baton scheduler; sockets are simnet's in-memory ones with the independent stand-
 (2) random interleavings of two user threads are judged by the oracle (I/O sections of different
 networking threads never overlap, callers see only InvalidState / refusal, disconnect never raises,
 interrupted threads terminate, the object stays reusable)."""
+import collections
 import threading
 import types
 
@@ -43,6 +44,8 @@ class World:
                 cfg['script'] = []
             elif beh == 'd':
                 cfg['script'] = [('success',), ('play_disconnect', '{"text":"bye"}')]
+            elif beh == 'p':          # logs the client in and then stays silent (play state)
+                cfg['script'] = [('success',)]
             elif beh == 'f':
                 cfg['status'] = 'close'
                 cfg['script'] = [('close',)]
@@ -118,7 +121,14 @@ class World:
                 except Exception:
                     return True
                 nt = [n for n in world.nts if n.sched_tid == t]
-                return bool(nt and nt[0]._int)
+                if nt and nt[0]._int:
+                    return True
+                # a select that finds nothing returns when its timeout expires; that only matters when
+                # packets are waiting in the outgoing queue (the loop then goes on to write them)
+                try:
+                    return len(list(collections.deque.__iter__(world.conn._outgoing_packet_queue))) > 0
+                except Exception:
+                    return False
             return True
         S.enabled = enabled
         self.events = []
@@ -411,6 +421,8 @@ def run(ctx):
     for line, mo, g in zip(lines, ctx.driver.ask(lines), impl):
         if mo != g:
             ctx.disagree('lifecycle history', line, mo, g)
+    flush_histories(ctx, C)
+    undisturbed(ctx, C)
     # ------------------------------------------------------------------ two user threads, random schedules
     for i in range(ctx.scale(150, 2500)):
         progs = [[rng.choice(OPS) for _ in range(rng.randrange(1, 4))] for _ in range(2)]
@@ -425,6 +437,127 @@ def run(ctx):
                  sample={'programs': progs, 'servers': servers, 'steps': len(r['ran']), 'outcomes': r['outs']})
         ctx.count('par.steps', len(r['ran']))
         oracle(ctx, servers, rl, rh, progs, r, 'two user threads')
+
+
+def flush_histories(ctx, C):
+    """disconnect() with packets still queued while the peer has (or has not) gone away: the call must
+    return normally, close the transport, end the networking thread and leave the object reusable"""
+    from minecraft.networking.packets import serverbound as sb
+    rng = ctx.rng
+    for trial in range(ctx.scale(48, 400)):
+        peer_gone = trial % 2 == 0
+        immediate = trial % 4 >= 2
+        nq = [0, 1, 3][trial // 4 % 3]
+        when = ['idle', 'fresh'][trial // 12 % 2]      # after the login settled / right after connect() returned
+        cfg = {'version': 757, 'script': [('success',)]}
+        excs, outcome = [], None
+        with simnet.Net(lambda s_: RefServer(s_, cfg)) as net:
+            conn = C.Connection('h', 1, username='u', allowed_versions={757}, handle_exception=lambda e, i: excs.append(e))
+            conn.connect()
+            if when == 'idle':
+                net.run_threads()
+            if peer_gone:
+                net.sockets[0].inbox.eof = True        # the peer has closed; the client has not read that yet
+            for k in range(nq):
+                conn.write_packet(sb.play.ChatPacket(message='bye %d' % k))
+            calls = []
+            for _ in range(2):
+                try:
+                    conn.disconnect(immediate=immediate)
+                    calls.append('ok')
+                except Exception as e:
+                    calls.append(repr(e))
+            sock_open = conn.socket is not None
+            net.run_threads()
+            slots_clear = conn.networking_thread is None and conn.new_networking_thread is None
+            cfg['script'] = [('success',)]
+            try:
+                conn.connect()
+                net.run_threads()
+                again = 'ok' if type(conn.reactor).__name__ == 'PlayingReactor' and conn.connected else 'not in play state'
+                conn.disconnect()
+                net.run_threads()
+            except Exception as e:
+                again = repr(e)
+        ctx.case(('flush', peer_gone, immediate, nq, when))
+        ctx.count('flush-histories')
+        bad = None
+        if calls != ['ok', 'ok']:
+            bad = 'disconnect(immediate=%s) twice -> %r' % (immediate, calls)
+        elif sock_open:
+            bad = 'the socket is still open after disconnect() returned'
+        elif not slots_clear:
+            bad = 'the networking thread did not end (slots %r / %r)' % (conn.networking_thread, conn.new_networking_thread)
+        elif again != 'ok':
+            bad = 'the object cannot connect again: %s' % again
+        if bad:
+            ctx.violation('%d packet(s) queued, peer %s, connection %s: %s' % (
+                nq, 'has closed' if peer_gone else 'open', when, bad),
+                {'queued': nq, 'peer_gone': peer_gone, 'immediate': immediate, 'when': when, 'calls': calls},
+                key={'kind': 'disconnect-with-queue', 'peer_gone': peer_gone, 'immediate': immediate, 'queued': min(nq, 1), 'when': when})
+
+
+def undisturbed(ctx, C):
+    """connect()/status() refused on an ACTIVE connection must leave it working: the server's next
+    keep-alive is still answered by the play-state reactor (real threads under the scheduler, because
+    'active' means a live networking thread)"""
+    import refcodec as rc
+    import refproto as rp
+    for trial in range(ctx.scale(8, 40)):
+        calls_to_try = [['s'], ['c'], ['s', 'c', 's'], ['c', 's']][trial % 4]
+        world = World(C, ['p'], 0, 0)
+        world.sequential = True
+        S = world.S
+        outs = []
+        try:
+            def body():
+                for op in ['c'] + calls_to_try:
+                    S.before('call', op)
+                    S.emit('call', op)
+                    world.api(op, outs)
+            ut = SC.user_thread(S, 1, body)
+            ut.start()
+
+            def tids():
+                return [1] + [n.sched_tid for n in world.nts]
+
+            def to_rest():
+                S.wait_all_parked(tids())
+                k = 0
+                while k < 3000:
+                    en = [t for t in tids() if S.enabled(t)]
+                    if not en:
+                        return True
+                    nts = sorted(t for t in en if t >= 100)
+                    S.step(nts[0] if nts else sorted(en)[0])
+                    S.wait_all_parked(tids())
+                    k += 1
+                return False
+            rest1 = to_rest()
+            srv = world.net.sockets[0].server if world.net.sockets else None
+            kas = []
+            if srv is not None:
+                srv.send_packet(rp.packet_id('keep_alive_cb', 757), rc.be(2, 8))
+                rest2 = to_rest()
+                kas = [f for f in srv.frames if f[0] == 'play' and f[1] == rp.packet_id('keep_alive_sb', 757)]
+            reactor = type(world.conn.reactor).__name__
+            nsock = len(world.net.sockets)
+            errs = [e for e in world.events if e[0] == 'exc'] + list(S.errors)
+        finally:
+            S.kill()
+            world.close()
+        ctx.case(('undisturbed', tuple(calls_to_try)))
+        bad = None
+        if outs != ['ok'] + ['invalid'] * len(calls_to_try):
+            bad = 'calls -> %r (an invalid-state error is documented for each call after the first)' % (outs,)
+        elif nsock != 1:
+            bad = 'a refused call opened another TCP connection'
+        elif len(kas) != 1 or reactor != 'PlayingReactor' or errs:
+            bad = 'after the refused calls the active connection answered %d of 1 keep-alive (reactor %s, errors %r)' % (
+                len(kas), reactor, errs[:1])
+        if bad:
+            ctx.violation('connect, then %r on the active connection: %s' % (calls_to_try, bad),
+                          {'calls': calls_to_try}, key={'kind': 'active-undisturbed', 'calls': calls_to_try})
 
 
 def replay(ctx, rp):
